@@ -534,6 +534,12 @@ func (r *Raft) start(restore bool) error {
 		r.followers[id] = new(follower)
 	}
 
+	// Start serving incoming RPCs. This is done before the node leaves the shutdown state:
+	// if it fails, the node is still stopped and can be started again.
+	if err := r.transport.Run(); err != nil {
+		return fmt.Errorf("could not run transport: %w", err)
+	}
+
 	r.lastContact = time.Now()
 	r.state = Follower
 
@@ -545,11 +551,6 @@ func (r *Raft) start(restore bool) error {
 	go r.heartbeatLoop()
 	go r.commitLoop()
 	go r.snapshotLoop()
-
-	// Start serving incoming RPCs.
-	if err := r.transport.Run(); err != nil {
-		return fmt.Errorf("could not run transport: %w", err)
-	}
 
 	r.logger.Infof(
 		"node started: address = %s electionTimeout = %v, heartbeatInterval = %v, leaseDuration = %v",
